@@ -128,6 +128,22 @@ def check_cacg(run, A):
         has_floor = _has(fl)
         n_floor += has_floor
         ok_all = ok_all and has_floor
+        # where the eigenvalues were divided by their floored maximum they lie in [0, 1] and the floor is the OPTION ITSELF: a floor relative to the (normalised)
+        # maximum is 0 for an all-zero scatter (a silent bin), the eigenvalues stay 0, pass the finiteness assert and give log det = -inf / NaN posteriors
+        from ..walk import gamma_paths, compatible
+        for cx, leaf_x in gamma_paths(x):
+            lx = strip_views(leaf_x)
+            normalised = lx.op == 'binop' and lx.args[0] == 'Div' and is_call_to(strip_views(lx.args[2]), 'numpy.maximum') and \
+                any(is_call_to(y, 'numpy.amax') for y in walk_terms(lx.args[2], into_mu=False))
+            if not normalised:
+                continue
+            for cf, leaf_f in gamma_paths(fl):
+                if not compatible(cx, cf):
+                    continue
+                lf = strip_views(leaf_f)
+                run.check(lf.op == 'param' and lf.args[0] == 'eigenvalue_floor', 'R-SAN', 'cACG: max-normalised eigenvalues are floored by the option itself', fn.loc(lf.node or a.node), '',
+                          'on the path where the eigenvalues are divided by their (floored) maximum the floor is not the absolute `eigenvalue_floor`: a relative floor vanishes for a '
+                          'zero scatter matrix', construct=f'R-SAN::{q}::absolute-floor-after-normalisation')
         # the floor is the option itself (eigenvalues already scaled to maximum one) or the option times the LARGEST eigenvalue of the same matrix:
         # relative to any other statistic (the smallest eigenvalue, a mean) the bound `eigenvalues >= floor * max` is gone
         for alt in unwrap_gamma(fl):
